@@ -14,6 +14,7 @@ def min_sum(p, q, k):
 def register(R):
     R.specfn(SPEC)
     R.klass(Q, fields={})
+    register_update(R)
     R.lemma("min_sum_vector_form", params={"p": "Vec", "q": "Vec", "k": "Int"}, requires=["k >= 0"],
             ensures=["asum(vmin2(p, q), 0, k) == min_sum(p, q, k)"], induct=("k", "0"))
     R.contract(Q + "._intersection_divergence", tags=("C11",),
@@ -31,3 +32,98 @@ def register(R):
             requires=["k >= 0", "forall(i, 0, k, p[i] >= 0 and q[i] >= 0)"],
             ensures=["0 <= min_sum(p, q, k)", "min_sum(p, q, k) <= asum(p, 0, k)", "min_sum(p, q, k) <= asum(q, 0, k)"],
             induct=("k", "0"))
+
+
+# ---- update(): skeleton of the window schedule, the reference hand-over, the scoring schedule and the decision (C11) -------
+from .detector_base import STREAM_FIELDS, STREAM_INV  # noqa: E402
+
+QS = Q + "@skeleton"
+W = "self.window_size"
+B0 = "old(self._build_reference_and_test)"
+D0 = "(old(self._drift_state) is not None)"
+T1 = "(self._total_samples - 1)"
+SCHEDULED = "((%s %% self.step) == 0 and %s != 0)" % (T1, T1)
+REF0, TEST0 = "old(self._reference_window)", "old(self._test_window)"
+# the window an observation lands in while the two windows are being filled
+FILL_REF = "(%s and not %s and df_rows(%s) < %s)" % (B0, D0, REF0, W)
+FILL_TEST = "(%s and not %s and df_rows(%s) >= %s and df_rows(%s) < %s)" % (B0, D0, REF0, W, TEST0, W)
+
+
+def register_update(R):
+    f = dict(STREAM_FIELDS)
+    f.update({"window_size": "Int", "ev_threshold": "Real", "divergence_metric": "Str", "sample_period": "Real", "step": "Int",
+              "ph_threshold": "Int", "bins": "Int", "delta": "Real", "_drift_detection_monitor": "Obj[PHMonitor]",
+              "num_pcs": "Opt[Int]", "online_scaling": "Bool", "_reference_scaler": "Opaque[Scaler]",
+              "_build_reference_and_test": "Bool", "_reference_window": "DF", "_test_window": "DF", "_pca": "Opt[Opaque[Pca]]",
+              "_reference_pca_projection": "DF", "_test_pca_projection": "DF", "_density_reference": "Opaque[AnyDict]",
+              "_density_test": "Opaque[AnyDict]", "lower": "Opaque[AnyDict]", "upper": "Opaque[AnyDict]",
+              "_change_score": "Opaque[AnyList]"})
+    R.klass("spec:PHMonitor", fields={"st": "Opaque[MonState]"})
+    R.klass(Q, fields=f, ghost={"score": "Real", "obs": "DF"}, invariant=STREAM_INV + [
+        ("C11", "self.window_size >= 1 and self.step >= 1"),
+        ("C11", "df_rows(self._reference_window) <= self.window_size and df_rows(self._test_window) <= self.window_size"),
+        # scoring mode: both windows are full and the components are fitted
+        ("C11", "implies(not self._build_reference_and_test, df_rows(self._reference_window) == self.window_size and "
+                "df_rows(self._test_window) == self.window_size and self.num_pcs is not None and self._pca is not None and "
+                "self._drift_state is None)"),
+        # filling mode: the test window only starts once the reference window is full; a pending drift has a full test window
+        ("C11", "implies(self._build_reference_and_test and self._drift_state is None, "
+                "df_rows(self._test_window) < self.window_size and "
+                "(df_rows(self._test_window) == 0 or df_rows(self._reference_window) == self.window_size))"),
+        ("C11", "implies(self._drift_state is not None, self._drift_state == 'drift' and self._build_reference_and_test and "
+                "df_rows(self._test_window) == self.window_size)"),
+    ])
+    abstract = lambda **kw: dict({"abstract": True, "index": "k", "invariant": []}, **kw)
+    R.contract(Q + ".update", tags=("C11", "C01"), params={"X": "RawX", "y_true": "RawY", "y_pred": "RawY"},
+               reads_not=["y_true", "y_pred"], reads_not_tags=("C16",),
+               calls={Q + "._build_histograms": "any", Q + "._build_kde": "any", Q + "._jensen_shannon_distance": "any",
+                      Q + "._intersection_divergence": "any"},
+               raises={"ValueError": {"when": "True"}},
+               ensures=[
+                   ("C01", "self._total_samples == old(self._total_samples) + 1"),
+                   # nothing is reported while the windows are being (re)filled
+                   ("C11", "implies(%s, self._drift_state is None)" % B0),
+                   # the update that follows a drift: the former test window becomes the reference window, the test window is
+                   # empty, the monitor starts afresh, the observation itself is not stored
+                   ("C11", "implies(%s and %s, df_rows(self._reference_window) == df_rows(%s) and df_rows(self._test_window) == 0 and "
+                           "mon_state(self._drift_detection_monitor) == mon_rst(old(mon_state(self._drift_detection_monitor))) and "
+                           "self._build_reference_and_test)" % (B0, D0, TEST0)),
+                   ("C11", "implies(%s and %s and not self.online_scaling, self._reference_window == %s)" % (B0, D0, TEST0)),
+                   # filling: the observation goes to the reference window until it is full, then to the test window
+                   ("C11", "implies(%s, df_rows(self._reference_window) == df_rows(%s) + 1 and self._test_window == %s and "
+                           "self._build_reference_and_test)" % (FILL_REF, REF0, TEST0)),
+                   ("C11", "implies(%s, df_rows(self._test_window) == df_rows(%s) + 1 and df_rows(self._reference_window) == df_rows(%s))"
+                           % (FILL_TEST, TEST0, REF0)),
+                   # scoring starts exactly when the test window is full
+                   ("C11", "implies(%s and not %s, self._build_reference_and_test == (df_rows(self._test_window) != %s))" % (B0, D0, W)),
+                   ("C11", "implies(%s, mon_state(self._drift_detection_monitor) == old(mon_state(self._drift_detection_monitor)) or %s)"
+                           % (B0, D0)),
+                   # scoring mode: the test window slides by one observation, the reference window stays
+                   ("C11", "implies(not %s, df_rows(self._test_window) == %s and self._reference_window == %s)" % (B0, W, REF0)),
+                   # the newest row of the test window is the current observation (as a one-row frame: the raw observation when
+                   # online_scaling is off, its scaled image otherwise), the oldest row is dropped
+                   ("C11", "implies(not %s, df_rows(self.ghost.obs) == 1 and df_last(self._test_window) == df_last(self.ghost.obs) and "
+                           "self._test_window == df_concat(df_tail(%s), self.ghost.obs))" % (B0, TEST0)),
+                   # (that this frame is pd.DataFrame(X) of the validated observation is visible in the code path but not claimed:
+                   # the identity between the raw argument and the validated block makes the query too heavy, as for HDDDM)
+                   # the score is computed and fed to the monitor exactly every `step` samples ...
+                   ("C11", "implies(not %s and not %s, mon_state(self._drift_detection_monitor) == old(mon_state(self._drift_detection_monitor)) "
+                           "and self._drift_state is None and not self._build_reference_and_test)" % (B0, SCHEDULED)),
+                   ("C11", "implies(not %s and %s, mon_state(self._drift_detection_monitor) == "
+                           "mon_upd(old(mon_state(self._drift_detection_monitor)), self.ghost.score))" % (B0, SCHEDULED)),
+                   # ... and drift is reported exactly when the monitor alarms; the windows are then rebuilt
+                   ("C11", "implies(not %s and %s, (self._drift_state == 'drift') == mon_alarm(self._drift_detection_monitor) and "
+                           "(self._drift_state is None or self._drift_state == 'drift') and "
+                           "self._build_reference_and_test == mon_alarm(self._drift_detection_monitor))" % (B0, SCHEDULED)),
+               ],
+               ghost_update=["self.ghost.score = change_score if (not %s and %s) else old(self.ghost.score)" % (B0, SCHEDULED),
+                             "self.ghost.obs = next_obs if not %s else old(self.ghost.obs)" % B0],
+               modifies=["_total_samples", "_samples_since_reset", "_drift_state", "_input_cols", "_input_col_dim",
+                         "_reference_window", "_test_window", "_build_reference_and_test", "_pca", "num_pcs",
+                         "_reference_pca_projection", "_test_pca_projection", "_density_reference", "_density_test", "lower", "upper",
+                         "_change_score", "_drift_detection_monitor"],
+               loops={0: abstract(havoc_fields={"lower": "Opaque[AnyDict]", "upper": "Opaque[AnyDict]", "_density_reference": "Opaque[AnyDict]"}),
+                      1: abstract(havoc_locals=["next_proj"], types={"next_proj": "DF"}),
+                      2: abstract(havoc_fields={"_density_test": "Opaque[AnyDict]"}),
+                      3: abstract(havoc_locals=["change_scores"], types={"change_scores": "AnyList"}),
+                      4: abstract(havoc_locals=["change_scores"], types={"change_scores": "AnyList"})})
